@@ -536,6 +536,12 @@ func (as *adminScen) serve(br *mbroker, c *simConn, h reqHeader, body interface{
 					q.applied = true
 				}
 				q.items[fmt.Sprintf("%s/%d", t, p)] = code
+				if fault != nil && fault.Do == "missing-partition" && p == ps[len(ps)-1] {
+					// incomplete response: the entry of one requested partition is absent
+					q.missing = true
+					cl.noteFault("incomplete-response")
+					continue
+				}
 				rtp.Partitions[p] = &sarama.DeleteRecordsResponsePartition{LowWatermark: 0, Err: sarama.KError(code)}
 			}
 			if !missing {
